@@ -1309,6 +1309,8 @@ def run(ctx):
         check_sessions(ctx, cases)          # replay of a session case
         return
     sessions = [] if ctx.replay else gen_sessions(ctx, thorough)          # drawn after the stateless cases
+    sessions = [c_ for c_ in cases if c_.get("kind") == "session"] + sessions          # pinned session cases of the corpus
+    cases = [c_ for c_ in cases if c_.get("kind") != "session"]
     chunks = [ch for ch in (cases[i::common.NCPU] for i in range(common.NCPU)) if ch]
     outs = common.run_impl_parallel("c12_impl", [{"cases": ch} for ch in chunks], timeout=1500)
     results = [None] * len(cases)
@@ -1389,6 +1391,35 @@ def run(ctx):
 
 
 
+def probe_subsamples(repo=None):
+    """Which variant of the code exists: SamplesSummary.subsamples and Samples.subsamples must reset the `_instance` cache of
+    the copy they make (`copied = copy(self)` ... `copied._instance = None`, since 4da3fbc), next to `_paths` and `_names`.
+    Session.v models that variant (subsamples_resets_instance = true). Fail-closed: anything else is reported."""
+    out = []
+    for rel, cls in (("autofit/non_linear/samples/summary.py", "SamplesSummary"), ("autofit/non_linear/samples/samples.py", "Samples")):
+        try:
+            tree = ast.parse(open(os.path.join(repo or common.REPO, rel)).read())
+            fn = [f for k_ in ast.walk(tree) if isinstance(k_, ast.ClassDef) and k_.name == cls
+                  for f in k_.body if isinstance(f, ast.FunctionDef) and f.name == "subsamples"]
+            if len(fn) != 1:
+                return False, "%s.subsamples not found in %s" % (cls, rel)
+            copies = [n_.targets[0].id for n_ in ast.walk(fn[0]) if isinstance(n_, ast.Assign) and len(n_.targets) == 1
+                      and isinstance(n_.targets[0], ast.Name) and isinstance(n_.value, ast.Call)
+                      and ast.unparse(n_.value).replace(" ", "") == "copy(self)"]
+            if len(copies) != 1:
+                return False, "%s.subsamples no longer makes exactly one `copy(self)`" % cls
+            resets = {ast.unparse(n_.targets[0]) for n_ in fn[0].body if isinstance(n_, ast.Assign) and len(n_.targets) == 1
+                      and isinstance(n_.value, ast.Constant) and n_.value.value is None}
+            missing = [a for a in ("_paths", "_names", "_instance") if "%s.%s" % (copies[0], a) not in resets]
+            if missing:
+                return False, "%s.subsamples does not reset %s of the copy (the Coq model Session.v resets all three caches)" % (
+                    cls, ", ".join(missing))
+            out.append("%s.subsamples resets _paths, _names, _instance" % cls)
+        except (OSError, SyntaxError) as e:
+            return False, "%s: %s" % (rel, e)
+    return True, "; ".join(out)
+
+
 def coq_header(ctx, extra=()):
     hdr = ctx.header(["Common.PyFloat", "Gen", "Model"] + list(extra)).replace(
         "From PAFC12 Require Import Gen.", "From PAFC01 Require Import ModelTree.\nFrom PAFC12 Require Import Gen.")
@@ -1399,8 +1430,19 @@ def check_sessions(ctx, sessions):
     """Oracle and correspondence for the session cases."""
     if not sessions:
         return
+    ok, detail = probe_subsamples()
+    ctx.obligation("translator:subsamples-resets-instance", "translator", ok, detail)
     terms, idx = run_sessions(ctx, sessions)
     results = getattr(ctx, "session_results", None)
+    if results is None:
+        return
+    fixed = {k_["replay"].split("C12-", 1)[1][:-5]: k_ for k_ in common.load_known("C12") if k_.get("status") == "fixed" and k_.get("replay")}
+    for c, r in zip(sessions, results):
+        slug = c.get("_pinned")
+        if slug in fixed:
+            msgs = ["driver raised %s" % r["exc"]] if "exc" in r else [m for m, _ in session_oracle(c, r["ok"])]
+            ctx.obligation("regression:" + fixed[slug]["signature"], "regression", not msgs,
+                           "pinned session of the repaired finding passes" if not msgs else "REGRESSED: " + "; ".join(msgs)[:500])
     if not os.path.exists(os.path.join(common.COQ, "C12", "Model.vo")):
         ctx.obligation("correspondence:sessions", "correspondence", False, "Model.vo not built")
         return
@@ -1434,10 +1476,10 @@ def summary_sessions(ctx, sessions, results):
     for b_ in (bad or [])[:5]:
         i = idx[b_]
         o = "; ".join(m for m, _ in session_oracle(sessions[i], results[i]["ok"]))
-        ctx.failure("correspondence", "session: the Coq model of the samples summary (reads, subsamples) disagrees with the best-fit vector "
-                    "the child summary returned" + (": " + o if o else ""), sessions[i],
+        ctx.failure("correspondence", "session: the Coq model of the samples summary (reads, subsamples) disagrees with the best-fit vector / "
+                    "the instance the child summary returned" + (": " + o if o else ""), sessions[i],
                     classes=[x for x in session_classes(sessions[i]) if x != "instance-cached-before-subsamples"],
-                    impl={"vec_maxl": results[i]["ok"].get("vec_maxl"), "chain": results[i]["ok"].get("chain")},
+                    impl={"vec_maxl": results[i]["ok"].get("vec_maxl"), "inst": results[i]["ok"].get("inst"), "chain": results[i]["ok"].get("chain")},
                     broken={"kind": "correspondence", "name": "C12.check_scase"}, found_input=bool(o))
 
 
@@ -1470,8 +1512,15 @@ def coq_scase(c, r):
     pre_inst = any(o in INSTANCE_READS for o in before)
     mid_read = bool(c.get("chain_reads")) and len(r["chain_trees"]) > 1
     kw = clist(["(%s, %s)" % (MG.coq_path(p), cfloat(unhex(x))) for p, x in r["kw_max"]])
-    return "(SCase %s %s %s %s %s %s %s)" % (MG.coq_node(trees[0]), kw, cbool(pre_read), cbool(pre_inst), cbool(mid_read),
-                                             clist([MG.coq_node(t) for t in trees[1:]]), vec)
+    inst = r.get("inst") or {}
+    if "ok" in inst:
+        iterm = "(Some (Some %s))" % MG.coq_ival(inst["ok"])
+    elif inst.get("exc") == "KeyError":
+        iterm = "(Some None)"
+    else:
+        iterm = "None"
+    return "(SCase %s %s %s %s %s %s %s %s)" % (MG.coq_node(trees[0]), kw, cbool(pre_read), cbool(pre_inst), cbool(mid_read),
+                                                clist([MG.coq_node(t) for t in trees[1:]]), vec, iterm)
 
 
 MANIFEST = {
@@ -1488,15 +1537,14 @@ MANIFEST = {
             "af.Result routes, non-float constants of collections, where a tightened prior maps the unit interval). Results as stateful "
             "objects (coq/C12/Session.v: SamplesSummary with its `_paths` / `_instance` caches, reads, subsamples; theorems: cache invariant "
             "over every sequence of reads and child creations, history-irrelevance of the child's best-fit vector and prior means, child "
-            "instance partial + refuted): session cases = joint models made by FreeParameterAnalysis.modify_model / collections / a "
+            "instance own (full since 4da3fbc; legacy witness kept; the variant is probed in the source on every run): session cases = joint models made by FreeParameterAnalysis.modify_model / collections / a "
             "component whose parameters the joint model also exposes under each other's names x random reads of the joint result "
             "(max_log_likelihood, median_pdf, prior_means, instance, model, model_absolute/relative/bounded, paths, names, subsamples of a "
             "sibling) before and after the child results are made (make_result of IndexCollection / FreeParameter analyses or subsamples, "
             "chains of depth 2) x reads of the child x the passing mode on the child; oracle by parameter identity against the joint "
-            "vector, CPass correspondence on the child model, check_scase correspondence of the summary model",
+            "vector, CPass correspondence on the child model, check_scase correspondence of the summary model (vector and instance)",
     "note": "Trusted: Coq kernel + vm_compute; translator; harness abstraction of live objects; config table read by the harness. Known "
-            "findings (suppressed, narrow classes): bounded-absorbed; subsamples-keeps-parent-instance (child.instance after the joint "
-            "result's instance was read first; proposed_fixes/C12-subsamples-resets-instance.diff); the pinned cases of the eight repaired "
+            "finding (suppressed, narrow class): bounded-absorbed; the pinned cases of the nine repaired "
             "findings are regression obligations. Not modelled: AnnotationPriorModel, Array models, deferred arguments, "
             "subtraction / negated priors, excluded_classes of copy_with_fixed_priors, the message object of a prior (oracle only), "
             "name-keyed (samples.csv) samples in sessions, Samples.subsamples (full sample lists), jax; arithmetic theorems are over exact rationals; in binary64 `relative and absolute widths from a "
